@@ -45,7 +45,11 @@ var nastyStrings = []string{
 }
 
 func genNasty(rng *rand.Rand) string {
-	switch rng.IntN(6) {
+	k := rng.IntN(7)
+	if k == 6 {
+		k = 2
+	}
+	switch k {
 	case 0:
 		n := rng.IntN(300)
 		b := make([]byte, n)
@@ -56,6 +60,23 @@ func genNasty(rng *rand.Rand) string {
 	case 1:
 		return genArpaName(rng)
 	case 2:
+		if rng.IntN(3) == 0 {
+			// host / host:port shapes put together from the delimiters of that syntax (brackets,
+			// zone and escape signs, colons, slashes) and very short pieces between them
+			if rng.IntN(2) == 0 {
+				// [host%zone]:port with every part optional, doubled or cut short
+				return pick(rng, "[", "[", "", "[[") + pick(rng, "fe80::1", "::1", "1.2.3.4", "a", "", "::", "example.org") +
+					pick(rng, "", "%", "%4", "%25", "%eth0", "%2", "%25e", "%%", "%25eth0") + pick(rng, "]", "]", "", "]]") +
+					pick(rng, "", "", ":", ":53", ":65536", ":x", ":0")
+			}
+			n := 1 + rng.IntN(6)
+			var sb strings.Builder
+			for i := 0; i < n; i++ {
+				sb.WriteString(pick(rng, "[", "]", "[", "]", "%", "%", "%2", "%25", ":", ":", "::", "/", "fe80::1", "1.2.3.4", "a", "4", "eth0",
+					"", "0", "65535", "65536", "-1", "+1", "@", "\x00", "xn--", "."))
+			}
+			return sb.String()
+		}
 		return genIPPortText(rng)
 	case 3:
 		if rng.IntN(3) == 0 {
